@@ -282,6 +282,14 @@ def ob_do_rpc(report, prop):
         for r in res:
             if r.tag != 'return':
                 return viol(prop, ob, [ex], f'do_rpc can {r.tag}', 'rpc-abnormal', path_summary(r), len(res))
+            # a request the sender could not write (refused by its own codec, stream error) ends the RPC there: nothing is awaited afterwards
+            wq_ = [i for i, e in enumerate(r.events) if e.kind == 'write-request']
+            if wq_:
+                wfail = any(re.search(r'poll\(write_request_future\)#\d+\.discr == 1', str(z3.simplify(c)).replace('1 == poll', 'poll')) or
+                            re.search(r'1 == poll\(write_request_future\)#\d+\.discr', str(z3.simplify(c))) for c in r.pc)
+                if wfail and any(e.kind == 'read-response' for e in r.events[wq_[0]:]):
+                    return viol(prop, ob, [ex], 'after write_request failed (e.g. the request exceeds the sender\'s own frame limit) do_rpc still waits for a response: '
+                                'the refusal is not reported promptly and both sides wait on each other', 'rpc-write-error-ignored', path_summary(r), len(res))
             if not (isinstance(r.ret, Agg) and r.ret.variant == 'Ready' and isinstance(r.ret.fields[0], Agg) and r.ret.fields[0].variant == 'Ok'):
                 continue
             n_ok += 1
